@@ -187,6 +187,8 @@ class Interp:
         self.vars: dict = {}
         self.cons: list = []
         self._gen_cache: dict = {}
+        self._preds_used: set = set()
+        self._identity_used = False
         self.info = S.info
         if S.modal:
             self.cons += frame_constraint(self.info['frame'], self.W, self.Rc)
@@ -310,14 +312,13 @@ class Interp:
                 else:
                     elems.append(env[p])
             if self.info['classical'] and s.predicate.is_system:
-                T = self.S.idx['T']
-                F = self.S.idx['F']
                 if s.predicate.name == 'Identity':
-                    a, b = elems
-                    if isinstance(a, int) and isinstance(b, int):
-                        return z3.IntVal(T if a == b else F)
-                    return z3.If(a == b, z3.IntVal(T), z3.IntVal(F))
-                return z3.IntVal(T)
+                    # a per-world equivalence relation that every extension
+                    # respects (constraints added in `constraints()`)
+                    self._identity_used = True
+                    return self._ext(s.predicate, elems, u)
+                return z3.IntVal(self.S.idx['T'])
+            self._preds_used.add((s.predicate.spec, len(elems)))
             return self._ext(s.predicate, elems, u)
         if t is Operated:
             op = s.operator
@@ -357,7 +358,39 @@ class Interp:
     def sat_nodes(self, nodes):
         return z3.And(*[self.sat_node(n) for n in nodes]) if nodes else z3.BoolVal(True)
 
+    def _identity_constraints(self):
+        'identity: reflexive, symmetric, transitive; extensions are congruent'
+        from pytableaux.lang import Predicate as _P
+        T = self.S.idx['T']
+        ident = _P.Identity
+        out = []
+        K = self.K
+
+        def Id(a, b, w):
+            return self._val(('P', ident.spec, (a, b), w)) == T
+        for w in range(self.W):
+            for a in range(K):
+                out.append(Id(a, a, w))
+                for b in range(K):
+                    out.append(z3.Implies(Id(a, b, w), Id(b, a, w)))
+                    for c in range(K):
+                        out.append(z3.Implies(z3.And(Id(a, b, w), Id(b, c, w)), Id(a, c, w)))
+            for (pspec, arity) in sorted(self._preds_used):
+                for tup in itertools.product(range(K), repeat=arity):
+                    for pos in range(arity):
+                        for b in range(K):
+                            if b == tup[pos]:
+                                continue
+                            other = tup[:pos] + (b,) + tup[pos + 1:]
+                            out.append(z3.Implies(
+                                Id(tup[pos], b, w),
+                                self._val(('P', pspec, tup, w)) == self._val(('P', pspec, other, w))))
+        return out
+
     def constraints(self):
+        if self.info['classical'] and self._identity_used:
+            ident = self._identity_constraints()    # may create variables (domain constraints)
+            return list(self.cons) + ident
         return list(self.cons)
 
     def describe(self, model):
